@@ -352,6 +352,10 @@ namespace Pistache
         {
             Size<T> size;
 
+            // a chunk of size zero would be taken for the end of the stream
+            if (size(val) == 0)
+                return stream;
+
             std::ostream os(&stream.buf_);
             os << std::hex << size(val) << crlf;
             os << std::dec << val << crlf;
